@@ -112,11 +112,11 @@ fn check_batch(acc: &mut Acc, c: &Cfg, l: &Luts, base: u64, ys: &[u16], us: &[u1
             return;
         }
     };
-    if rgb.width() != len || rgb.height() != 1 || rgb.data().len() != len {
+    if (rgb.width(), rgb.height()) != shape_of(len) || rgb.data().len() != len {
         acc.violation(
             base,
             format!("decode-dims {}", c.key()),
-            format!("dims {}x{} len {} for input {}x1", rgb.width(), rgb.height(), rgb.data().len(), len),
+            format!("dims {}x{} len {} for input {:?}", rgb.width(), rgb.height(), rgb.data().len(), shape_of(len)),
             json!({"kind":"c01","cfg":c.json(),"yuv":[ys[0],us[0],vs[0]]}),
         );
         return;
